@@ -1,4 +1,6 @@
 import ProductMD.Proofs.CINormal
+import ProductMD.Proofs.CIDistinct
+import ProductMD.Proofs.CIApi
 /-!
 # C01 — composeinfo survives a write/read cycle unchanged
 
@@ -18,9 +20,8 @@ def CI.WellKeyed (ci : ComposeInfo) : Prop := wellKeyedTop ci.variants = true
 
 instance (ci : ComposeInfo) : Decidable (CI.WellKeyed ci) := by unfold CI.WellKeyed; infer_instance
 
-/-- **Read-back.** Whatever the writer agrees to write is read back as the normal form of what was written:
-every section, every variant at any depth with its fields, arches, paths, release and children. -/
-theorem C01_readback (ci : ComposeInfo) (j : PyVal) (hk : WellKeyed ci) (hu : UidsDistinct ci) :
+/-- read-back with UID distinctness still as a hypothesis (discharged by `C01_written_uids_distinct` below) -/
+theorem CI.readback_of_distinct (ci : ComposeInfo) (j : PyVal) (hk : WellKeyed ci) (hu : UidsDistinct ci) :
     serialize ci = .ok j → deserialize j = .ok ci.norm := by
   intro h
   unfold serialize at h
@@ -75,8 +76,8 @@ theorem C01_readback (ci : ComposeInfo) (j : PyVal) (hk : WellKeyed ci) (hu : Ui
                   rw [variantsDe_ok _ hv10 variants d _ (by simp [PyVal.get?]) hV hk hu]
                   simp [ComposeInfo.norm, hlay]
 
-/-- **Fixpoint.** Writing the normal form (= the re-read object, by `C01_readback`) produces the very same document. -/
-theorem C01_fixpoint (ci : ComposeInfo) (j : PyVal) (hk : WellKeyed ci) (hu : UidsDistinct ci) :
+/-- fixpoint with UID distinctness still as a hypothesis -/
+theorem CI.fixpoint_of_distinct (ci : ComposeInfo) (j : PyVal) (hk : WellKeyed ci) (hu : UidsDistinct ci) :
     serialize ci = .ok j → serialize ci.norm = .ok j := by
   intro h
   unfold serialize at h
@@ -120,10 +121,32 @@ theorem C01_fixpoint (ci : ComposeInfo) (j : PyVal) (hk : WellKeyed ci) (hu : Ui
               simp only [hlay, if_true] at hB
               simp [hB]
 
+/-- **The writer's refusal of duplicate UIDs.** If the library agrees to write a description whose dicts are keyed the
+way `add()` keys them, no two variants anywhere in the forest share a UID — including the F14 shape (a dashed top-level
+UID `Server-Tools` next to `Server` → `Tools`): the two would file different entries (ids `ServerTools` / `Tools`) under
+one key and `Variant.serialize` raises.  Uses the generated validators: UID alignment below a parent, `uid` without
+dashes = `id` at the top level, and a non-empty id. -/
+theorem C01_written_uids_distinct (ci : ComposeInfo) (j : PyVal) (hk : WellKeyed ci) (h : serialize ci = .ok j) :
+    UidsDistinct ci := by
+  obtain ⟨d, hd⟩ := serialize_variantsSer h
+  exact variantsSer_distinct ci.variants d hd hk
+
+/-- **Read-back.** Whatever the writer agrees to write is read back as the normal form of what was written:
+every section, every variant at any depth with its fields, arches, paths, release and children.
+The only hypothesis is the key convention `add()` establishes. -/
+theorem C01_readback (ci : ComposeInfo) (j : PyVal) (hk : WellKeyed ci) :
+    serialize ci = .ok j → deserialize j = .ok ci.norm :=
+  fun h => readback_of_distinct ci j hk (C01_written_uids_distinct ci j hk h) h
+
+/-- **Fixpoint.** Writing the normal form (= the re-read object, by `C01_readback`) produces the very same document. -/
+theorem C01_fixpoint (ci : ComposeInfo) (j : PyVal) (hk : WellKeyed ci) :
+    serialize ci = .ok j → serialize ci.norm = .ok j :=
+  fun h => fixpoint_of_distinct ci j hk (C01_written_uids_distinct ci j hk h) h
+
 /-- **Bytes.** The text of the first `dumps()`, parsed and loaded, is dumped to the same text.  `parse` stands for
 `json.load`; that it inverts the printer on the written document is the explicit hypothesis `hjson` (trusted stdlib,
 exercised on every generated case by the check). -/
-theorem C01_bytes (parse : Str → Except Err PyVal) (ci : ComposeInfo) (t : Str) (hk : WellKeyed ci) (hu : UidsDistinct ci)
+theorem C01_bytes (parse : Str → Except Err PyVal) (ci : ComposeInfo) (t : Str) (hk : WellKeyed ci)
     (hjson : ∀ j, serialize ci = .ok j → parse (JsonText.dumps j) = .ok j) :
     dumps ci = .ok t → reloadDump parse t = .ok t := by
   intro h
@@ -137,12 +160,12 @@ theorem C01_bytes (parse : Str → Except Err PyVal) (ci : ComposeInfo) (t : Str
       cases h
       unfold reloadDump
       rw [hjson j hj]
-      simp only [loadsDoc, C01_readback ci j hk hu hj, hv, dumps, C01_fixpoint ci j hk hu hj]
+      simp only [loadsDoc, C01_readback ci j hk hj, hv, dumps, C01_fixpoint ci j hk hj]
 
 /-- the reader's result is exactly the normal form also through `loads` (which validates once more) -/
-theorem C01_loads (ci : ComposeInfo) (j : PyVal) (hk : WellKeyed ci) (hu : UidsDistinct ci)
+theorem C01_loads (ci : ComposeInfo) (j : PyVal) (hk : WellKeyed ci)
     (h : serialize ci = .ok j) (hv : validateClass "composeinfo.ComposeInfo" [] = .ok ()) : loadsDoc j = .ok ci.norm := by
-  simp only [loadsDoc, C01_readback ci j hk hu h, hv]
+  simp only [loadsDoc, C01_readback ci j hk h, hv]
 
 /-- **Normal form, identity.** On a description that already has the shape the reader returns (`Normal`, decidable:
 final only with a label, lower-case release type, base product only when layered, top level sorted by UID, every variant
@@ -265,8 +288,8 @@ example : exCI.norm ≠ exCI := by
 
 /-- **The writer refuses conflicting duplicates.** After a successful `serialize`, any two variants of the forest that
 carry the same UID filed exactly the same entry (`Variant UID already exist` otherwise).  This is the model-level content
-of the refusal; that under `WellKeyed` it excludes duplicates altogether (`UidsDistinct`) is argued in
-docs/mutants_C01.md but not proved here, which is why `UidsDistinct` stays an explicit (decidable) hypothesis. -/
+of the refusal, without any hypothesis on keys; `C01_written_uids_distinct` sharpens it to "no duplicates at all" under
+`WellKeyed`. -/
 theorem C01_duplicate_uids_agree (ci : ComposeInfo) (j : PyVal) (h : serialize ci = .ok j) :
     ∀ x ∈ flats (byKeys ci.variants), ∀ y ∈ flats (byKeys ci.variants), x.1 = y.1 → x = y := by
   unfold serialize at h
@@ -295,5 +318,43 @@ theorem C01_keyed_by_uid_witness :
     let ci : ComposeInfo := { exCI with variants := [.mk k%"P" k%"P" k%"P" k%"p" k%"variant" [k%"x86_64"] [] none [kid k%"B", kid k%"P-B"]] }
     isOk (serialize ci) = true ∧ ¬ WellKeyed ci ∧ ¬ UidsDistinct ci ∧
       (ci.norm.variants.map fun v => v.kids.length) = [1] := by decide +kernel
+
+/-! ### the key convention is what the public API builds (tie to the arena model of C11, `Model/Forest.lean`) -/
+
+/-- **`WellKeyed` is established by `add()`.** Take ANY history of `add` calls from the empty `ComposeInfo` — any objects,
+any containers, accepted or refused calls, objects added twice, any order — in which the top-level calls use the default
+key (`ci.variants.add(v)`; `Variant.add` has no key parameter at all).  The forest the writer then walks (the arena state
+unfolded to any depth `f`; `X` = the paths / per-variant releases, which `add` never looks at) satisfies `WellKeyed`.
+With an explicit `variant_id` the statement is false (F29: `Variants.add(v, 'junk')`). -/
+theorem C01_api_wellkeyed (U : Nat → Forest.Attrs) (X : Nat → Extra) (fuel : Nat) (ops : List Forest.Op)
+    (hkey : ∀ o ∈ ops, o.c = none → o.key = none) (f : Nat) (compose : Compose) (release : Release) (base : Option BaseProduct) :
+    WellKeyed { compose, release, base, variants := forestOf U X (Forest.run U fuel ops) f } :=
+  forestOf_wellKeyed (invW_run U fuel ops) X f (run_top_keys U fuel ops hkey)
+
+/-- **The property for everything built through the API**: no hypothesis on the forest is left.  If the library agrees to
+write what a history of default-key `add` calls built, it is read back as its normal form and written again to the same
+document. -/
+theorem C01_api_roundtrip (U : Nat → Forest.Attrs) (X : Nat → Extra) (fuel : Nat) (ops : List Forest.Op)
+    (hkey : ∀ o ∈ ops, o.c = none → o.key = none) (f : Nat) (compose : Compose) (release : Release) (base : Option BaseProduct)
+    (j : PyVal) :
+    let ci : ComposeInfo := { compose, release, base, variants := forestOf U X (Forest.run U fuel ops) f }
+    serialize ci = .ok j → deserialize j = .ok ci.norm ∧ serialize ci.norm = .ok j := by
+  intro ci h
+  have hk := C01_api_wellkeyed U X fuel ops hkey f compose release base
+  exact ⟨C01_readback ci j hk h, C01_fixpoint ci j hk h⟩
+
+/-- non-vacuity: a history with a refused call (object 3 has a foreign arch) builds a depth-3 forest that is written -/
+def CI.exU : Nat → Forest.Attrs := fun i =>
+  [ { id := k%"A", uid := k%"A", name := k%"a", type := k%"variant", arches := [k%"x86_64", k%"i386"] },
+    { id := k%"B", uid := k%"A-B", name := k%"b", type := k%"optional", arches := [k%"x86_64"] },
+    { id := k%"C", uid := k%"A-B-C", name := k%"c", type := k%"addon", arches := [k%"x86_64"] },
+    { id := k%"X", uid := k%"A-X", name := k%"x", type := k%"variant", arches := [k%"ppc64le"] },
+    { id := k%"DE", uid := k%"D-E", name := k%"d", type := k%"variant", arches := [k%"s390x"] } ].getD i default
+def CI.exOps : List Forest.Op := [⟨none, 0, none⟩, ⟨some 0, 1, none⟩, ⟨some 0, 3, none⟩, ⟨some 1, 2, none⟩, ⟨none, 4, none⟩]
+def CI.exApiCI : ComposeInfo :=
+  { exCI with variants := forestOf exU (fun _ => ⟨[], none⟩) (Forest.run exU 50 exOps) 4 }
+
+example : (∀ o ∈ exOps, o.c = none → o.key = none) ∧ isOk (serialize exApiCI) = true ∧
+    (uidsL exApiCI.variants) = [k%"A", k%"A-B", k%"A-B-C", k%"D-E"] := by decide +kernel
 
 end PM
